@@ -199,6 +199,7 @@ def case_for(seed):
         e['kind'] = kind
         e['clause_kept'] = 'C11_kept_features_differ'
         e['clause_part'] = 'C11_row_partition_differs'
+        e['strict'] = False
         if r['outcome'] != ref['outcome']:
             e['kept'] = [-1]        # different outcome: kept sets differ by construction
         variants_enc.append(e)
